@@ -143,6 +143,10 @@ func (p *property) CreateField() (Field, error) {
 	if p.hasValue {
 		return nil, fmt.Errorf("field %s is already set", p.schema.JSONName)
 	}
+	if other := p.oneofHeldBy(); other != nil {
+		// creating this member would silently clear the other one
+		return nil, fmt.Errorf("field %s cannot be set: %s of the same oneof is already set", p.schema.JSONName, other.JSONName())
+	}
 	vv, err := p.propSet.buildOrCreate(p)
 	if err != nil {
 		return nil, err
@@ -150,6 +154,30 @@ func (p *property) CreateField() (Field, error) {
 	p.value = vv
 	p.hasValue = true
 	return vv, nil
+}
+
+// oneofHeldBy returns the other member of the property's proto oneof that
+// currently holds the oneof's value, if there is one.
+func (p *property) oneofHeldBy() protoreflect.FieldDescriptor {
+	if len(p.protoPath) == 0 || p.propSet == nil || p.propSet.value == nil {
+		return nil
+	}
+	msg := p.propSet.value
+	for _, step := range p.protoPath[:len(p.protoPath)-1] {
+		if !msg.Has(step) || step.Message() == nil || step.IsList() || step.IsMap() {
+			return nil
+		}
+		msg = msg.Get(step).Message()
+	}
+	leaf := p.protoPath[len(p.protoPath)-1]
+	oneof := leaf.ContainingOneof()
+	if oneof == nil || oneof.IsSynthetic() {
+		return nil
+	}
+	if held := msg.WhichOneof(oneof); held != nil && held.Number() != leaf.Number() {
+		return held
+	}
+	return nil
 }
 
 func (p *property) Field() (Field, error) {
